@@ -478,6 +478,9 @@ public:
 
         while (ss_stack_.size() > ss_front_)
         {
+            // sort_mkqs_cache() may have reallocated bktcache_ (it only grows)
+            bktcache = reinterpret_cast<std::uint16_t*>(bktcache_.data());
+
             Step& s = ss_stack_.back();
             size_t i = s.idx_++; // process the bucket s.idx_
 
